@@ -40,14 +40,14 @@ git -C /repo checkout -- .
 git -C /repo status --short | grep -v '^??' && echo "WARNING /repo not clean"
 # 3) file it
 if [ "$with" = FAIL ] && [ "$without" = PASS ] && [ "$builds" = 0 ]; then
-  S=/verif/seeded/$P-m$I; mkdir -p $S
+  S=/verif/seeded/$P-${TAG:-m}$I; mkdir -p $S
   cp "$D" $S/patch.diff; cp $DEMOS $S/ 2>/dev/null; cp $M/m$I.md $S/agent_notes.md 2>/dev/null
   python3 - "$P" "$I" "$S" "$suite" <<PY
 import json,sys,subprocess
 P,I,S,suite=sys.argv[1:5]
 res={}
 $(for c in $P $EXTRA; do echo "res['$c']='''${RES[$c]}'''"; done)
-meta={"property":P,"mutant":"m"+I,"source":"independent sub-agent, given only the property text and a scratch worktree",
+meta={"property":P,"mutant":"${TAG:-m}"+I,"source":"independent sub-agent, given only the property text and a scratch worktree",
  "confirmed":{"builds_incl_freebsd_windows":True,"demo_fails_with_change":True,"demo_passes_without_change":True,"suite_unexpected_failures_with_change":suite},
  "needs_to_manifest":"see agent_notes.md","checks_run_quick":res,
  "detected_by":[c for c,v in res.items() if v.startswith('exit=1')]}
